@@ -11,6 +11,8 @@ open PwVerif PwVerif.Macro PwVerif.Proto
     setout <path> <o> <val>           node_at_path.outputs[o].value = val
     setuiin <path> <k> <val>          UI node k of the macro at path: inputs.user_input.value = val
     setuiout <path> <k> <val>         … outputs.user_input.value = val
+    resend <path> <k>                 node_at_path.inputs[k].value = (the value it holds)
+    resendout <path> <o>              node_at_path.outputs[o].value = (the value it holds)
     run                               macro.run()
     call <n> (<k> <val>)*             macro(**kwargs)
 
@@ -225,6 +227,21 @@ def step (s : DS) (ws : List String) : DS × List String :=
     | some p, some ((k, v), []) =>
       live s fun n σ =>
         let σ' := (setUiOutAt n σ p k v).1
+        ({ s with st := some σ' }, ["st " ++ showSt n σ'])
+    | _, _ => (s, ["bad-op"])
+  | ["resend", p, k] =>
+    -- `ch.value = ch.value` on an input: the value it already holds is assigned again
+    match pPath p, k.toNat? with
+    | some p, some k =>
+      live s fun n σ =>
+        let σ' := setInAt n σ p k ((σ.atPath p).get .inp k)
+        ({ s with st := some σ' }, ["st " ++ showSt n σ'])
+    | _, _ => (s, ["bad-op"])
+  | ["resendout", p, o] =>
+    match pPath p, o.toNat? with
+    | some p, some o =>
+      live s fun n σ =>
+        let σ' := (setOutAt n σ p o ((σ.atPath p).get .out o)).1
         ({ s with st := some σ' }, ["st " ++ showSt n σ'])
     | _, _ => (s, ["bad-op"])
   | ["run"] => live s fun n σ => doRun s n σ
